@@ -68,6 +68,11 @@ def praw_tree(raw, idxmap):
     if raw['t'] in ('setup', 'dict'):
         v = [] if raw['value'] is None else [raw_tree(raw['value'], idxmap)]
         u = [] if raw['units'] is None else [raw_tree(raw['units'], idxmap)]
+        if raw['t'] == 'setup':
+            # AttrSetup(value=None) sets nothing: a reference to an object whose creation was REJECTED reaches the call as None
+            # (a dict {'value': None} is different: the library passes None to the converter)
+            v = [] if v == [[0]] else v
+            u = [] if u == [[0]] else u
         return [1, v, u]
     return [0, raw_tree(raw, idxmap)]
 
